@@ -88,8 +88,12 @@ func (c *HeartbeatManager) StartHeartbeat() error {
 		return err
 	}
 
-	// stop an already running heartbeat
-	c.StopHeartbeat()
+	// stop an already running heartbeat and install the new stop channel under the
+	// same lock, otherwise two concurrent starts leave a stream nobody can stop anymore
+	c.stopMux.Lock()
+	defer c.stopMux.Unlock()
+
+	c.stopHeartbeatLocked()
 
 	c.stopHeartbeatC = make(chan struct{})
 
@@ -106,6 +110,11 @@ func (c *HeartbeatManager) StopHeartbeat() {
 	c.stopMux.Lock()
 	defer c.stopMux.Unlock()
 
+	c.stopHeartbeatLocked()
+}
+
+// needs to be invoked with stopMux being locked
+func (c *HeartbeatManager) stopHeartbeatLocked() {
 	if c.stopHeartbeatC != nil && !c.isHeartbeatClosed() {
 		close(c.stopHeartbeatC)
 	}
